@@ -1685,3 +1685,111 @@ Proof.
   split; [vm_compute; reflexivity|]. split; [vm_compute; reflexivity|]. split; [vm_compute; discriminate|].
   split; [vm_compute; reflexivity|]. split; [vm_compute; reflexivity|]. split; vm_compute; reflexivity.
 Qed.
+
+(** * The occurrence after a prefix of separate flags (successful lines) *)
+Section Prefix.
+Variable c : cmd.
+
+(** a rewriting [X ~> Y] that is sound at every loop state of the class whenever the [X] line succeeds
+    stays sound behind any sequence of separate flag tokens *)
+Theorem flags_prefix_congr X Y : dash_not_sub c ->
+  forall chs ls st, Forall (flag_ch c) chs ->
+  l_trailing ls = false -> l_pst ls = PSValuesDone -> no_hyphen_pos c (l_pos ls) -> fs_skip st = 0 ->
+  (forall ls' st' lr, l_trailing ls' = false -> l_pst ls' = PSValuesDone -> l_pos ls' = l_pos ls -> fs_skip st' = 0 ->
+     parse_loop c X ls' st' = ROk lr -> res_rel c (parse_loop c Y ls' st') (ROk lr)) ->
+  forall lr, parse_loop c (map (fun ch => [45; ch]) chs ++ X) ls st = ROk lr ->
+  res_rel c (parse_loop c (map (fun ch => [45; ch]) chs ++ Y) ls st) (ROk lr).
+Proof.
+  intros DS. induction chs as [|ch chs IH]; intros ls st FA T PV NH FS H lr.
+  - cbn [map app]. apply H; try assumption. reflexivity.
+  - inversion FA as [|? ? [LT [NE [a [G TV]]]] FA']; subst. cbn [map app].
+    rewrite !(single_flag_step c ch a _ ls st DS T PV NH LT NE G TV FS).
+    destruct (react c (Some IShort) SCmdLine a [] None st) as [[s1 p1]|e s|n] eqn:R; cbn [rbind fst]; try discriminate.
+    apply (IH _ s1 FA'); try reflexivity; [exact NH|rewrite (react_fs _ _ _ _ _ _ _ _ _ R); exact FS|].
+    intros ls' st' lr' T' PV' PO' FS'. apply H; try assumption.
+Qed.
+
+(** a successful [--opt=v ...] has accepted the occurrence *)
+Lemma long_eq_success l v a tokA rest ls st lr :
+  flag_site c ls tokA -> to_long tokA = Some (l, true, Some v) -> lookup_long c l = Some a ->
+  a_takes_value a = true -> a_req_eq a = false ->
+  parse_loop c (tokA :: rest) ls st = ROk lr ->
+  exists x0, react c (Some ILong) SCmdLine a [v] None st = ROk x0.
+Proof.
+  intros FA TA LK TV RE. rewrite parse_loop_cons. unfold iteration.
+  rewrite (phase1_long c _ _ ls tokA l (Some v) a st FA TA) by (try assumption; apply andb_false_r).
+  cbn [is_some]. rewrite (parse_opt_value_attached c ILong v a true st RE).
+  destruct (react c (Some ILong) SCmdLine a [v] None st) as [x0|e s|n]; cbn [finish_iter rbind]; try discriminate.
+  intros _. exists x0. reflexivity.
+Qed.
+
+(** [-a -b ... --opt v rest] vs [-a -b ... --opt=v rest], successful lines *)
+Theorem after_flags_long_space_vs_eq chs l v a r tokA tokB rest ls st lr :
+  is_set s_sub_precedence c = false -> dash_not_sub c -> Forall (flag_ch c) chs ->
+  l_trailing ls = false -> l_pst ls = PSValuesDone -> no_hyphen_pos c (l_pos ls) -> fs_skip st = 0 ->
+  is_escape tokA = false -> is_escape tokB = false ->
+  possible_subcommand c tokA false = None -> possible_subcommand c tokB false = None ->
+  to_long tokA = Some (l, true, Some v) -> to_long tokB = Some (l, true, None) ->
+  lookup_long c l = Some a -> single_opt c a r -> plain_value a v ->
+  parse_loop c (map (fun ch => [45; ch]) chs ++ tokA :: rest) ls st = ROk lr ->
+  res_rel c (parse_loop c (map (fun ch => [45; ch]) chs ++ tokB :: v :: rest) ls st) (ROk lr).
+Proof.
+  intros SP DS FA T PV NH FS EA EB PA PB TA TB LK SO PL.
+  apply (flags_prefix_congr (tokA :: rest) (tokB :: v :: rest) DS chs ls st FA T PV NH FS).
+  intros ls' st' lr' T' PV' PO' FS' OK.
+  assert (FS_ : forall tok, is_escape tok = false -> possible_subcommand c tok false = None -> flag_site c ls' tok).
+  { intros tok E P. split; [exact T'|]. split; [rewrite PV'; exact I|]. split; [apply possible_subcommand_vaf; exact P|exact E]. }
+  pose proof SO as [TV [RE _]].
+  destruct (long_eq_success l v a tokA rest ls' st' lr' (FS_ _ EA PA) TA LK TV RE OK) as [x0 R].
+  rewrite <- OK.
+  apply (long_space_vs_eq c l v a r tokA tokB rest ls' st' x0 SP (FS_ _ EA PA) (FS_ _ EB PB) TA TB LK SO PL FS' R).
+Qed.
+End Prefix.
+
+Lemma parse_top_cons c0 bin toks : is_set s_no_binary_name c0 = false ->
+  parse_top c0 (bin :: toks) = do_parse (top_cmd c0 bin) toks.
+Proof. intros NB. unfold parse_top. rewrite NB. reflexivity. Qed.
+
+(** lifting a success-conditional loop result to [parse_top] *)
+Lemma parse_top_lift_ok c0 bin X Y m : is_set s_no_binary_name c0 = false ->
+  let c := build_self (top_cmd c0 bin) in
+  is_set s_ignore_errors c = false ->
+  (forall lr, parse_loop c X ls_top ps_new = ROk lr -> res_rel c (parse_loop c Y ls_top ps_new) (ROk lr)) ->
+  parse_top c0 (bin :: X) = OOk m -> parse_top c0 (bin :: Y) = OOk m.
+Proof.
+  intros NB c IE H OK.
+  destruct (parse_loop c X ls_top ps_new) as [lr|e s|n] eqn:PX.
+  - rewrite <- OK. apply (parse_top_lift c0 bin Y X NB IE). fold c. rewrite PX. apply H. reflexivity.
+  - exfalso. subst c. unfold ls_top in PX. revert OK. rewrite (parse_top_cons c0 bin X NB). unfold do_parse. cbv zeta.
+    destruct (negb (valid (top_cmd c0 bin))); [discriminate|].
+    rewrite gmw_unfold, parsed_of_dispatch, PX. cbn [rbind post]. rewrite IE. cbn [andb]. discriminate.
+  - exfalso. subst c. unfold ls_top in PX. revert OK. rewrite (parse_top_cons c0 bin X NB). unfold do_parse. cbv zeta.
+    destruct (negb (valid (top_cmd c0 bin))); [discriminate|].
+    rewrite gmw_unfold, parsed_of_dispatch, PX. cbn [rbind post]. destruct n; discriminate.
+Qed.
+
+Theorem after_flags_long_space_vs_eq_top c0 bin chs l v a r tokA tokB rest m :
+  is_set s_no_binary_name c0 = false ->
+  let c := build_self (top_cmd c0 bin) in
+  is_set s_ignore_errors c = false -> is_set s_sub_precedence c = false ->
+  dash_not_sub c -> Forall (flag_ch c) chs -> no_hyphen_pos c 1 ->
+  is_escape tokA = false -> is_escape tokB = false ->
+  possible_subcommand c tokA false = None -> possible_subcommand c tokB false = None ->
+  to_long tokA = Some (l, true, Some v) -> to_long tokB = Some (l, true, None) ->
+  lookup_long c l = Some a -> single_opt c a r -> plain_value a v ->
+  parse_top c0 (bin :: map (fun ch => [45; ch]) chs ++ tokA :: rest) = OOk m ->
+  parse_top c0 (bin :: map (fun ch => [45; ch]) chs ++ tokB :: v :: rest) = OOk m.
+Proof.
+  intros NB c IE SP DS FA NH EA EB PA PB TA TB LK SO PL.
+  apply (parse_top_lift_ok c0 bin _ _ m NB IE). intros lr OK.
+  apply (after_flags_long_space_vs_eq c chs l v a r tokA tokB rest ls_top ps_new lr); try assumption; reflexivity.
+Qed.
+
+Example ex_after_flags :
+  Forall (flag_ch exl) [97; 98] /\
+  out_ok (parse_top exl_cmd ([112] :: map (fun ch => [45; ch]) [97; 98] ++ t_opt_eq_v :: [t_run])) = true /\
+  parse_top exl_cmd ([112] :: map (fun ch => [45; ch]) [97; 98] ++ t_opt :: t_v :: [t_run]) =
+  parse_top exl_cmd ([112] :: map (fun ch => [45; ch]) [97; 98] ++ t_opt_eq_v :: [t_run]).
+Proof.
+  split; [exact (proj1 (proj2 (proj2 ex_cluster_hyps)))|]. split; vm_compute; reflexivity.
+Qed.
